@@ -178,7 +178,7 @@ func c16Links(r *ev.Result, base string) {
 	last one. */
 	dotted := filepath.Join(root, "dotted")
 	os.MkdirAll(dotted, 0o755)
-	names := []string{"ps.bsd.pl", "ps.linux.pl", "a.b.c.pl", "v1.2.pl"}
+	names := []string{"ps.bsd.pl", "ps.linux.pl", "a.b.c.pl", "v1.2.pl", "Deploy.pl", "camelCase.pl"}
 	for k, name := range names {
 		os.WriteFile(filepath.Join(dotted, name), []byte(c16ConvScripts[k%len(c16ConvScripts)]), 0o644)
 	}
